@@ -59,6 +59,7 @@ TIERS = {
         ('vals-u7', dict(MaxDepth=2, MaxLen=4, InitLen=3, UniverseName='u7', GridName='full',
                          Groups={'iter', 'agg', 'cat'})),
         ('agg-u9', dict(MaxDepth=2, MaxLen=4, InitLen=2, UniverseName='u9', GridName='full', Groups={'agg'})),
+        ('focus-u3', dict(MaxDepth=2, MaxLen=4, InitLen=3, UniverseName='u3', GridName='full', Groups={'focus'})),
         ('comp-u4-d2', dict(MaxDepth=3, MaxLen=4, InitLen=2, UniverseName='u4', GridName='small', Groups=ALL_GROUPS)),
     ],
     'thorough': [
@@ -67,6 +68,9 @@ TIERS = {
         ('vals-u9', dict(MaxDepth=2, MaxLen=4, InitLen=3, UniverseName='u9', GridName='full',
                          Groups={'iter', 'agg', 'cat'})),
         ('comp-u4-d2', dict(MaxDepth=3, MaxLen=4, InitLen=2, UniverseName='u4', GridName='small', Groups=ALL_GROUPS)),
+        ('focus-u4', dict(MaxDepth=2, MaxLen=4, InitLen=3, UniverseName='u4', GridName='full', Groups={'focus'})),
+        ('focus-u3-d2', dict(MaxDepth=3, MaxLen=3, InitLen=2, UniverseName='u3', GridName='small',
+                             Groups={'focus', 'iter'})),
         ('comp-u3-d3', dict(MaxDepth=4, MaxLen=3, InitLen=1, UniverseName='u3', GridName='small', Groups=ALL_GROUPS)),
         ('comp-u4-d3', dict(MaxDepth=4, MaxLen=3, InitLen=1, UniverseName='u4', GridName='small', Groups=ALL_GROUPS)),
     ],
@@ -159,6 +163,19 @@ TESTS = {'isint': '{v} instance of xs:integer', 'gt 1': '{v} gt 1', 'eq 1': '{v}
          'le 2.5': '{v} le 2.5', "eq 'a'": "{v} eq 'a'"}
 
 
+def consumer_text(F: str, E: str, v: str) -> str:
+    return {'exists': f'exists({E})', 'empty': f'empty({E})', 'head': f'head({E})', 'count': f'count({E})',
+            'some': f'(some {v} in {E} satisfies {v} gt 0)', 'geq': f'({E} = 5)'}[F]
+
+
+def action_versions(action: str, args: tuple):
+    vs = ACTION_VERSIONS.get(action, ALLV)
+    if action in ('MapFocus', 'ForFocus', 'PredFocus', 'QuantFocus'):
+        if action == 'MapFocus' or 'head' in args[:2] or any(isinstance(a, str) and a.startswith('!') for a in args):
+            vs = V30
+    return vs
+
+
 def expr_for(X: str, action: str, args: tuple, n: int, sfx: str) -> str:
     """XPath text of `action(args)` applied to the source expression X (a parenthesised primary);
     n = length of the source sequence (tokens len / len+1); sfx = loop-variable suffix."""
@@ -233,6 +250,19 @@ def expr_for(X: str, action: str, args: tuple, n: int, sfx: str) -> str:
     if action in ('StringJoin', 'StringJoinAny', 'StringJoinTypeErr'):
         sep = ''.join(chr(c) for c in args[0]) if args else '-'
         return f"string-join({X}, '{sep}')"
+    if action in ('MapFocus', 'ForFocus', 'PredFocus'):
+        F, inner, R = args[0], args[1], args[2]
+        E = f'(4, 5, 6){inner}' if inner.startswith('[') else f'((4, 5, 6) {inner})'
+        C = consumer_text(F, E, f'$v{sfx}')
+        if action == 'MapFocus':
+            return f'{X} ! ({C}, {R})'
+        if action == 'ForFocus':
+            return f'for {x} in {X} return ({C}, {R})'
+        return f'{X}[({C}, {R})[last()] = {T(3)}]'
+    if action == 'QuantFocus':
+        q, F = args[0], args[1]
+        C = consumer_text(F, f'(. + 1, . + 2)[. lt {T(2)}]', f'$v{sfx}')
+        return f'{q} {x} in {X} satisfies {C}'
     if action == 'Comma':
         t = seq_text(args[1])
         return f'({X}, {t})' if args[0] == 'after' else f'({t}, {X})'
@@ -460,7 +490,7 @@ def second_oracle(src, action, args, dst):
 _G: dict = {}
 NUMT = ('int', 'dec', 'flt', 'dbl')
 NUM_TOKS = {'1', '2', '2.5', '1e0', '0.0', 'NaN'}
-_VAR = re.compile(r'\$([xyi])\d+')
+_VAR = re.compile(r'\$([xyiv])\d+')
 
 
 def type_sig(items) -> str:
@@ -507,7 +537,7 @@ def worker(job):
         if msg:
             oracle.append(msg)
         edge_ok = True
-        allowed = ACTION_VERSIONS.get(action, ALLV)
+        allowed = action_versions(action, args)
         rot = zlib.crc32(f'{action}{args}{n}'.encode())
         for kind, text, sfx, versions in spell[s]:
             vs = [v for v in VERSIONS if v in allowed and v in versions]
@@ -628,7 +658,7 @@ def replay_graph(chk: core.Check, name: str, g: tla.Graph, nested_k: int):
             for kind, text, sfx, versions in spell[s]:
                 if kind == 'ctor' or kind == 'nested-samevar':
                     continue
-                vs = versions & ACTION_VERSIONS.get(a, ALLV)
+                vs = versions & action_versions(a, args)
                 if not vs:
                     continue
                 n = len(src['s'])
@@ -722,7 +752,8 @@ def run(chk: core.Check) -> None:
                         'HeadOf', 'TailOf', 'Reverse', 'ForIndex', 'CommaRange', 'PredRange', 'ToCount', 'For', 'For2',
                         'For2Self', 'Quant', 'Quant2', 'Map', 'PredItem', 'PredSelf', 'Count', 'Empty', 'Exists',
                         'IndexOf', 'DistinctValues', 'ZeroOrOne', 'OneOrMore', 'ExactlyOne', 'Sum', 'SumZero', 'Avg',
-                        'Min', 'Max', 'StringJoin', 'StringJoinAny', 'StringJoinTypeErr', 'Comma'}
+                        'Min', 'Max', 'StringJoin', 'StringJoinAny', 'StringJoinTypeErr', 'Comma',
+                        'MapFocus', 'ForFocus', 'PredFocus', 'QuantFocus'}
     if expected_actions - all_acts:
         raise tla.MachineryError(f'actions never fired (vacuous): {sorted(expected_actions - all_acts)}')
     chk.coverage['exhaustive'] = True
